@@ -32,9 +32,9 @@ RULE = (
     "distinct_nontrivial = distinct (program, dataset seed, run kind, sample set / order, interference pattern) runs whose sample columns were compared with the solo columns"
 )
 FAULT_KEYS = ["inbreeding_file", "fit_interference", "prior_work", "permuted_runs", "subset_runs", "solo_runs", "pool_runs", "merged_runs", "multi_core_runs", "sample_in_two_pools"]
-PROBE_KEYS = ["exact_tie_skipped", "gl_values_compared", "pool_file_interleaved", "columns_compared", "records_compared_pool_vs_merged", "unknown_alleles_named_by_others", "alt_renumbered", "refmasked_solo_only",
+PROBE_KEYS = ["call_pool_start_state_tie_skipped", "exact_tie_skipped", "gl_values_compared", "pool_file_interleaved", "columns_compared", "records_compared_pool_vs_merged", "unknown_alleles_named_by_others", "alt_renumbered", "refmasked_solo_only",
               "programs_assemble", "programs_call", "programs_call_exact", "sample_in_two_pools", "fits_observed"]
-OPTIONAL_PROBES = {"quick": ("alt_renumbered", "refmasked_solo_only", "exact_tie_skipped"), "thorough": ()}
+OPTIONAL_PROBES = {"quick": ("alt_renumbered", "refmasked_solo_only", "exact_tie_skipped", "call_pool_start_state_tie_skipped"), "thorough": ()}
 COMPONENTS = dict(scn_c08.COMPONENTS)
 ASSUMPTIONS = [
     "read names are globally unique across samples (mates are merged by read name within a sample; the statement does not say what a reused name across pooled samples means)",
@@ -55,6 +55,15 @@ child_init = scn_c08.child_init
 
 
 def gen_config(rng, tier, index=0):
+    cfg = _gen_config(rng, tier, index)
+    if cfg["program"] == "call" and cfg["pools"] and "GL" not in cfg["report"]:
+        # the genotype likelihoods are exact and independent of the chain: they keep the pool-vs-merged
+        # comparison sharp even when the two chains legitimately differ (see trajectory_free_equal)
+        cfg["report"] = sorted(cfg["report"] + ["GL"])
+    return cfg
+
+
+def _gen_config(rng, tier, index=0):
     return {
         "program": rng.choice(PROGRAMS),
         "dataset": "simple" if rng.random() < 0.25 else "synthetic",
@@ -196,6 +205,20 @@ def exact_tie(program, a, b):
         vals = [float(v) for v in gp]
         return gp[idx[ga]] == gp[idx[gb]] and float(gp[idx[ga]]) >= max(vals) - 1e-9
     return True
+
+
+TRAJECTORY_FREE = ("DP", "RCOUNT", "RCALLS", "SNVDP", "GL")
+
+
+def trajectory_free_equal(a, b):
+    """Narrow relaxation (pool vs physically merged reads, `call` only): the sampler's start state comes from
+    greedy_caller, an arg-max that is decided by the last bit of the likelihood when alleles are exactly tied,
+    and a pool delivers its distinct reads in another order than a merged BAM.  A different start state gives
+    a different (equally valid) chain.  What must still agree exactly is everything that does not depend on
+    the chain: depths, read counts and the genotype likelihoods."""
+    if set(a) != set(b):
+        return False
+    return all(a.get(k) == b.get(k) for k in TRAJECTORY_FREE if k in a)
 
 
 def per_genotype(rec, col, key, ploidy):
@@ -393,6 +416,9 @@ def run_batch(ctx, b):
                         if prec[lid]["cols"][p]["_raw"] != mrec[lid]["cols"][p]["_raw"]:
                             if exact_tie(program, prec[lid]["cols"][p], mrec[lid]["cols"][p]):
                                 ctx.counters.inc("exact_tie_skipped")
+                                continue
+                            if program == "call" and trajectory_free_equal(prec[lid]["cols"][p], mrec[lid]["cols"][p]):
+                                ctx.counters.inc("call_pool_start_state_tie_skipped")
                                 continue
                             raise Violation("pool_differs_from_merged",
                                             "pool %s (samples %r) at locus %s: pooled column differs from the column obtained from physically merged alignments" % (p, pools[p], lid),
